@@ -17,13 +17,31 @@ import (
 
 var hqPool = newChildPool("hqchild", hqSpecOf)
 
+// rough cost of a history in seconds of retry sleeps: the pool starts the long ones first
+func hqCost(in string) int {
+	kv := parseKV(in)
+	c := 0
+	for _, f := range kv["addf"] + kv["delf"] {
+		switch f {
+		case 'O':
+		case 'S':
+			c += 8
+		default:
+			c += 3
+		}
+	}
+	return c + 5*strings.Count(kv["steps"], "W")
+}
+
+func init() { hqPool.cost = hqCost }
+
 func init() {
 	register(&Driver{
 		Name:     "hqflow",
 		Header:   "From ZenoV Require Import Lib.Harness Lib.Hex Queue.HopsPath Queue.Batcher Queue.QueueHarness.\n",
 		CaseType: "hcase",
 		Footer:   "\nDefinition DIFF := Eval vm_compute in hdiffs cases.\nPrint DIFF.\nDefinition MON := Eval vm_compute in hmons cases.\nPrint MON.\n",
-		Rule:     "one case = one run of the real hq source (consumer, producer, finisher, websocket goroutines, real gocrawlhq client) in its own process against a fake crawl HQ that answers the k-th add / delete / get request as a generated fault sequence says (O ok, 5 = 503, R = connection reset, S = stall until the client's 5 s timeout, L = accepted but the answer is lost): batch size 1..5, workers 1..25 (1 or 2 senders), 1..14 outlinks (texts from a pool incl. unparsable, non-ASCII, duplicates; hops 0..300) produced back to back with optional waits that force timer-triggered flushes, accepted URLs handed out again on get, seeds finished (0..2 children) or held by a plan; distinct by input; non-trivial when at least one request failed and was retried AND at least one batch left on the timer (smaller than the batch size)",
+		Rule:     "one case = one run of the real hq source (consumer, producer, finisher, websocket goroutines, real gocrawlhq client) in its own process against a fake crawl HQ that answers the k-th add / delete / get request as a generated fault sequence says (O ok, 5 = 503, R = connection reset, S = stall until the client's 5 s timeout, L = accepted but the answer is lost; runs of 1..2 failures everywhere, and in ~30% of the cases an outage: the same add, delete or get request fails 3..6 times in a row before it succeeds): batch size 1..5, workers 1..25 (1 or 2 senders), 1..14 outlinks (texts from a pool incl. unparsable, non-ASCII, duplicates; hops 0..300) produced back to back with optional waits that force timer-triggered flushes, accepted URLs handed out again on get, seeds finished (0..2 children) or held by a plan; distinct by input; non-trivial when at least one request failed and was retried AND at least one batch left on the timer (smaller than the batch size)",
 		Gen:      genHQFlow,
 		Exec:     execHQFlow,
 		Shrink:   shrinkHQFlow,
@@ -219,6 +237,50 @@ func genHQFlow(r *Rng, i int, tier string) string {
 			getf = genFaults(r, 1+r.Intn(2), tier, &stall)
 		}
 	}
+	// outage stream: the SAME request fails 3..6 times in a row (any mix of 503, reset, lost answer,
+	// at most one stall) before the HQ recovers - longer than the three doublings that take the retry
+	// sleep to its cap.  Retry sleeps are real (1, 2, 4, 5, 5 s): few of the long ones in quick.
+	if r.Chance(30) {
+		n := 3 + r.Intn(2)
+		if tier == "thorough" || r.Chance(15) {
+			n = 3 + r.Intn(4)
+		}
+		st := 0
+		if tier == "thorough" && r.Chance(20) {
+			st = 1
+		}
+		var run strings.Builder
+		for j := 0; j < n; j++ {
+			ch := "555RRL"[r.Intn(6)]
+			if st > 0 && r.Chance(25) {
+				ch = 'S'
+				st--
+			}
+			run.WriteByte(ch)
+		}
+		pre := strings.Repeat("O", r.Intn(2))
+		switch k := r.Intn(8); {
+		case k < 4 && !anyBad: // acknowledgements of finished seeds
+			consume = true
+			if fin == "H" {
+				fin = "0"
+			}
+			delf = pre + run.String() + "O"
+		case k < 7: // outlinks
+			addf = pre + run.String() + "O"
+		default: // feed
+			consume = true
+			getf = run.String() + "O"
+		}
+		if tier == "thorough" && r.Chance(25) && !anyBad { // both directions down one after the other
+			consume = true
+			if fin == "H" {
+				fin = "1"
+			}
+			addf = "55R" + "O"
+			delf = "R5L5" + "O"
+		}
+	}
 	c := 0
 	if consume {
 		c = 1
@@ -369,6 +431,25 @@ func execHQFlow(in string) Result {
 	if res.Panic != "" {
 		tags["panic"] = true
 		note("hqchild panic: " + res.Panic + " on: " + in)
+	}
+	for kind, name := range map[string]string{"A": "add", "D": "del", "G": "get"} {
+		best, cur := 0, 0
+		for _, e := range res.Events {
+			if e.K != kind {
+				continue
+			}
+			if e.Res != "O" {
+				cur++
+				if cur > best {
+					best = cur
+				}
+			} else {
+				cur = 0
+			}
+		}
+		if best >= 3 {
+			tags[fmt.Sprintf("outage:%s:%d-in-a-row", name, best)] = true
+		}
 	}
 	tags[fmt.Sprintf("senders:%d", map[bool]int{true: 1, false: workers / 10}[workers < 10])] = true
 	tags[fmt.Sprintf("bsize:%d", bsize)] = true
